@@ -334,10 +334,30 @@ def _parse(args, kwargs, names):
     return a
 
 
+def clone_layout(x):
+    """Private copy of an array with the SAME memory layout (strides, negative strides, gaps, offset into its buffer): BLAS and
+    the FFT pick their kernels by layout, so only a layout-preserving copy reproduces a call bit for bit."""
+    root = x
+    while isinstance(root.base, np.ndarray):
+        root = root.base
+    try:
+        if root is x or x.size == 0:
+            return x.copy(order='K')
+        if not (root.flags.c_contiguous or root.flags.f_contiguous):
+            return np.array(x, copy=True)
+        nb = root.copy(order='K')
+        offset = x.__array_interface__['data'][0] - root.__array_interface__['data'][0]
+        if offset < 0 or offset >= max(nb.nbytes, 1):
+            return np.array(x, copy=True)
+        return np.ndarray(x.shape, x.dtype, buffer=nb, offset=offset, strides=x.strides)
+    except Exception:
+        return np.array(x, copy=True)
+
+
 def _copyarg(x):
     """Private copy of a caller-owned mutable argument (ndarray / list); immutables are returned as they are."""
     if isinstance(x, np.ndarray):
-        return np.array(x, copy=True)
+        return clone_layout(x)
     if isinstance(x, list):
         return [_copyarg(v) for v in x]
     return x
@@ -767,7 +787,7 @@ def grid_class(m, n, M, N):
 
 def wl_grid(ctx, rng):
     """Shape grid (m,n) in [1..7]^2 x (M,N) in [1..8]^2 (quick: stratified sample; thorough: all of it)."""
-    hi_in, hi_out = ctx.pick((7, 8), (10, 12))
+    hi_in, hi_out = ctx.pick((7, 8), (9, 11))
     pairs = [(m, n, M, N) for m in range(1, hi_in + 1) for n in range(1, hi_in + 1) for M in range(1, hi_out + 1) for N in range(1, hi_out + 1)]
     pairs.sort(key=lambda p: (p[0] * p[1] + p[2] * p[3], p))
     if ctx.quick:
@@ -810,7 +830,7 @@ def wl_random(ctx, rng):
     """Larger random cases (any parity, Q>0, outputs smaller or larger than the input)."""
     nmax = ctx.pick(20, 64)
     from prysm import fttools as _ft
-    for _i in range(ctx.share(ctx.pick(160, 200000))):
+    for _i in range(ctx.share(ctx.pick(160, 80000))):
         if _i % 4000 == 3999:          # bound the memory held by the shared caches
             _ft.mdft.clear()
             _ft.czt.clear()
@@ -840,7 +860,7 @@ def wl_random(ctx, rng):
         ctx.case(desc, nontrivial=nontrivial(a))
         drive_engine(ctx, method, fwd, a, Q, (M, N), shift, desc)
     if not ctx.quick:
-        for _ in range(ctx.share(1600)):
+        for _ in range(ctx.share(800)):
             m, n, M, N = (int(v) for v in rng.integers(34, 201, 4))
             qk = Q_KINDS[int(rng.integers(3))]
             sk = SHIFT_KINDS[int(rng.integers(3))]
@@ -863,7 +883,7 @@ def wl_float32(ctx, rng):
     float64 data under precision 32, float32 data under precision 64."""
     from ..util import precision
     nmax = ctx.pick(9, 24)
-    for _ in range(ctx.share(ctx.pick(300, 240000))):
+    for _ in range(ctx.share(ctx.pick(300, 90000))):
         conf = 32 if rng.random() < 0.75 else 64
         dbits = 32 if (conf == 64 or rng.random() < 0.75) else 64
         m, n = (int(v) for v in rng.integers(1, nmax + 1, 2))
@@ -966,7 +986,7 @@ def wl_fixed_sampling(ctx, rng):
     from prysm import propagation
     from ..util import precision
     nmax = ctx.pick(10, 24)
-    for _ in range(ctx.share(ctx.pick(300, 240000))):
+    for _ in range(ctx.share(ctx.pick(300, 90000))):
         square = rng.random() < 0.7
         m = int(rng.integers(1, nmax + 1))
         n = m if square else int(rng.integers(1, nmax + 1))
@@ -1124,7 +1144,7 @@ def wl_histories(ctx, rng):
         ctx.note('histories', 'all 1884 sequences of length <= 3 over the 12-letter op alphabet (one argument set), all 6561 sequences of length 4 over a '
                               '9-letter alphabet alternating between two argument sets of equal array sizes, + random histories')
     maxlen = ctx.pick(8, 24)
-    for _ in range(ctx.share(ctx.pick(200, 160000))):
+    for _ in range(ctx.share(ctx.pick(200, 45000))):
         L = int(rng.integers(2, maxlen + 1))
         if rng.random() < 0.5:       # a family of argument sets with the same array sizes (other Q, other shift)
             pool = list(SAME_SIZE_FAMILIES[int(rng.integers(len(SAME_SIZE_FAMILIES)))])
@@ -1242,6 +1262,11 @@ def repeat_laws(ctx, label, call, objs, plain, desc, single, lowprec, forms=(), 
         box[0] = plain({})
     if box[0] is None:
         return first
+    if lowprec and 'czt' in label:
+        # a float32 shift container drags the chirp arithmetic of czt2 to float32 (error grows with the chirp phase): that *is* the
+        # ledgered finding KEY_SHIFTSPELL, judged by M2 in C01 -- not restated here as a container dependence
+        ctx.skip('alias: float32 shift container through czt (chirp arithmetic in float32: ledgered C01 finding, judged by the history monitor)')
+        return first
     ctx.observe('alias.container-independence')
     rtol = 1e-3 if single else (1e-4 if lowprec else 1e-12)
     if not _close_rel(first, box[0], rtol):
@@ -1290,7 +1315,7 @@ def wl_repeat(ctx, rng):
     engines; judged by the repeat laws above and, call by call, by the contracts."""
     from prysm import fttools, propagation as P
     from ..util import precision
-    n = ctx.share(ctx.pick(200, 80000))
+    n = ctx.share(ctx.pick(200, 30000))
     for _ in range(n):
         route = ('engine', 'engine', 'fixed', 'fixed', 'fft')[int(rng.integers(5))]
         bits = 32 if rng.random() < 0.15 else 64
@@ -1454,7 +1479,7 @@ def wl_wrapper_histories(ctx, rng):
     sum and a fresh executor, the wrapper against the physical Q."""
     from prysm import fttools, propagation as P
     from prysm.conf import config
-    n = ctx.share(ctx.pick(70, 40000))
+    n = ctx.share(ctx.pick(70, 15000))
     maxlen = ctx.pick(7, 16)
     for _ in range(n):
         square = rng.random() < 0.7
